@@ -406,35 +406,52 @@ package otto
 // error.go: exception constructors
 // ---------------------------------------------------------------------------
 
-// newError builds the error record and its stack trace; it reads the scope chain only.
-// Its body is verified under C19 where noted; here its frame is assumed.
-//@ func newError
+// newError builds the error record of the named class with its stack trace: innermost
+// frame first, then the frames of the callers in order (frames without a source offset are
+// skipped), at most traceLimit entries when a limit is set (C19).  The optional format
+// string must come first among the variadic arguments.
+//@ spec fmtFirst(in []interface{}) bool = len(in) == 0 || is(in[0], string)
+//@ func (ottoError).describe
 //@   trusted
+//@   pure
+//@   nothrow
+//@ func newError
+//@   props C19
+//@   requires fmtFirst(in) && stackFramesToPop >= 0
+//@   invariant@1 curScope != nil
+//@   invariant@2 len(err.trace) >= 1 && (old(rt.traceLimit) >= 1 ==> limit >= 1 && limit <= old(rt.traceLimit) && len(err.trace) <= old(rt.traceLimit) - limit + 1)
+//@   ensures result.name == name
+//@   ensures rt != nil && old(rt.scope) != nil ==> len(result.trace) >= 1
+//@   ensures rt != nil && old(rt.scope) != nil && old(rt.traceLimit) >= 1 ==> len(result.trace) <= old(rt.traceLimit)
 //@   nothrow
 //@   pure
-//@   ensures result.name == name
 //@ func (*runtime).panicTypeError
 //@   props C19
+//@   requires fmtFirst(argumentList)
 //@   nothrow
 //@   modifies exception.value
 //@   ensures result != nil && result.value.(ottoError).name == "TypeError" && is(result.value, ottoError)
 //@ func (*runtime).panicRangeError
 //@   props C19
+//@   requires fmtFirst(argumentList)
 //@   nothrow
 //@   modifies exception.value
 //@   ensures result != nil && result.value.(ottoError).name == "RangeError" && is(result.value, ottoError)
 //@ func (*runtime).panicReferenceError
 //@   props C19
+//@   requires fmtFirst(argumentList)
 //@   nothrow
 //@   modifies exception.value
 //@   ensures result != nil && result.value.(ottoError).name == "ReferenceError" && is(result.value, ottoError)
 //@ func (*runtime).panicSyntaxError
 //@   props C19
+//@   requires fmtFirst(argumentList)
 //@   nothrow
 //@   modifies exception.value
 //@   ensures result != nil && result.value.(ottoError).name == "SyntaxError" && is(result.value, ottoError)
 //@ func (*runtime).panicURIError
 //@   props C19
+//@   requires fmtFirst(argumentList)
 //@   nothrow
 //@   modifies exception.value
 //@   ensures result != nil && result.value.(ottoError).name == "URIError" && is(result.value, ottoError)
@@ -809,3 +826,29 @@ package otto
 //@   nosafety
 //@   requires rt != nil && rt.otto != nil
 //@   calls select(rt.otto.Interrupt) when rt.otto.Interrupt != nil
+
+// ---------------------------------------------------------------------------
+// error.go, cmpl_evaluate_expression.go: classes, traces, call-site positions (C19)
+// ---------------------------------------------------------------------------
+
+// The compiled program (node* trees) is immutable once cmpl_parse.go has built it: no
+// other code stores into a field of a node* struct.  This makes a compiled Script reusable
+// on any runtime, any number of times (C20), and lets the evaluator's contracts rely on
+// node fields across calls.
+//@ stabletypes[C20,C19,C18] prefix=node files=cmpl_parse.go
+
+// When a function is called, the caller's frame records the source offset of the callee
+// expression (identifier, dot or bracket expression; -1 otherwise) - recorded after the
+// arguments were evaluated, so that calls inside the argument list cannot overwrite it.
+//@ spec calleeOffset(n nodeExpression) int = ite(is(n, *nodeIdentifier), n.(*nodeIdentifier).idx,
+//@+  ite(is(n, *nodeDotExpression), n.(*nodeDotExpression).idx, ite(is(n, *nodeBracketExpression), n.(*nodeBracketExpression).idx, -1)))
+//@ func (*runtime).cmplEvaluateNodeCallExpression
+//@   props C19
+//@   nosafety
+//@   requires rt != nil && rt.scope != nil && node != nil
+//@   at_call (*object).call : rt.scope.frame.offset == calleeOffset(node.callee)
+//@ func (*runtime).cmplEvaluateNodeNewExpression
+//@   props C19
+//@   nosafety
+//@   requires rt != nil && rt.scope != nil && node != nil
+//@   at_call (Value).construct : rt.scope.frame.offset == calleeOffset(node.callee)
